@@ -27,7 +27,10 @@ LEVEL = ('decides: a solution handed out is the snapshot taken while the solver 
          'on — predicate algebra, nogood watchers, minimisers, conflict-analysis tables, nogood '
          'deletion, decision read-back, no-learning resolver, constraint builders, reified reasons — '
          'wherever they are not already registered here under another id. backtrack resets the '
-         'notification cursor of the trail (S17). Does not decide that any propagator detects every '
+         'notification cursor of the trail (S17). no post / implied_by returns Ok(()) without posting '
+         '(S18 MUST-PASS on path summaries) and every public variable constructor reaches exactly one '
+         'engine constructor (S19 API-FORWARD) — both forbid input-dependent shortcuts, justified '
+         'exceptions are listed in a table. Does not decide that any propagator detects every '
          'violation once its variables are fixed')
 TECHNIQUE = "static analysis: must-pass / dominance / paired-set / override⇒declare / table rules over rustc MIR"
 
